@@ -50,6 +50,9 @@ func New(config ...Config) fiber.Handler {
 			_ = c.Status(res.StatusCode)
 
 			for header, vals := range res.Headers {
+				// The recorded values are the complete header of the original response: they
+				// replace what middleware in front of this one has set already, not add to it
+				c.RequestCtx().Response.Header.Del(header)
 				for _, val := range vals {
 					c.RequestCtx().Response.Header.Add(header, val)
 				}
